@@ -18,10 +18,11 @@ Three parts (DESIGN.md, section C09):
 The keyword dictionary is harvested at run time from the sources under test; the value type and the documented
 context ("parent keyword") of each keyword are harvested at run time from the reference manual.
 
-Fuzzing: 8 (quick, 45 s) / 16 (thorough, 15 min) single-process libFuzzer workers on a shared corpus, no -fork.  This
-is what `-jobs=N -workers=N` does, except that a worker whose process ended with a crash is started again with the
-time that is left (bounded number of launches): a libFuzzer process stops at its first crash, and without that a
-tree with shallow crashes would be observed for a few hundred executions only.
+Fuzzing: 8 (quick) / 16 (thorough) single-process libFuzzer workers on a shared corpus, no -fork, each with a budget
+of executions (-runs: 8 x 2000 quick ~ 45 s, 16 x 25000 thorough ~ 15 min on an idle machine; -max_total_time is only
+a cap).  This is what `-jobs=N -workers=N` does, except that a worker whose process ended with a crash is started
+again with the executions that are left (bounded number of launches): a libFuzzer process stops at its first crash,
+and without that a tree with shallow crashes would be observed for a few hundred executions only.
 """
 import collections
 import hashlib
@@ -909,22 +910,28 @@ def run_fuzz(c, tier, H, seeds):
                                        for ch in w))
     c.extra["dictionary_size"] = len(words)
     c.extra["dictionary_keywords_harvested"] = len(H["kw"])
+    # work is bounded by executions (-runs per worker: 8 x 2000 quick, 16 x 25000 thorough; about 45 s / 15 min on an
+    # idle 16-core machine); the time limit is only a cap for a loaded machine, sized so that the floor stays reachable
     workers = 8 if tier == "quick" else 16
-    total = 45 if tier == "quick" else 900
-    max_launches = 12 if tier == "quick" else 60
+    runs_per_worker = 2000 if tier == "quick" else 25000
+    total = 150 if tier == "quick" else 1800
+    max_launches = 20 if tier == "quick" else 60
     deadline = time.time() + total
     stats = []
     lock = threading.Lock()
+    c.extra["fuzz_runs_requested"] = workers * runs_per_worker
 
     def worker(w):
         launches = 0
-        while launches < max_launches:
+        done = 0
+        while launches < max_launches and done < runs_per_worker:
             remain = int(deadline - time.time())
             if remain < 4:
                 break
             launches += 1
             log = os.path.join(d["logs"], "w%d_%d.log" % (w, launches))
-            cmd = [exe, d["corpus"], d["seeds"], "-max_total_time=%d" % remain, "-timeout=10", "-rss_limit_mb=3000",
+            cmd = [exe, d["corpus"], d["seeds"], "-runs=%d" % (runs_per_worker - done), "-max_total_time=%d" % remain,
+                   "-timeout=10", "-rss_limit_mb=3000",
                    "-malloc_limit_mb=2000", "-print_final_stats=1", "-dict=" + os.path.join(root, "dict.txt"),
                    "-artifact_prefix=" + os.path.join(d["art"], "w%d_" % w),
                    "-seed=%d" % (c.seed * 100003 + w * 1009 + launches)]
@@ -945,6 +952,7 @@ def run_fuzz(c, tier, H, seeds):
                 ms = re.findall(r"^#(\d+)\s", txt, re.M)
                 ex = int(ms[-1]) if ms else 0
             cf = re.findall(r"cov: (\d+) ft: (\d+)", txt)
+            done += max(ex, 1)
             with lock:
                 stats.append(dict(worker=w, launch=launches, rc=rc, execs=ex,
                                   cov=int(cf[-1][0]) if cf else 0, ft=int(cf[-1][1]) if cf else 0))
